@@ -47,5 +47,18 @@ mut('c12-any-input-quits', 'C12', CS, "if user_input == 'q':", "if user_input:")
 mut('c12-quit-mid-preterminal', 'C12', G, "                    self.print_guess(new_guess)", "                    self.print_guess(new_guess)\r\n                    if self.should_exit: return num_guesses", nth=1)
 mut('c12-no-save-on-quit', 'C12', CS, "                self._save_session()\n                print(\"Exiting...\",file=sys.stderr)\n                break", "                print(\"Exiting...\",file=sys.stderr)\n                break")
 mut('c12-status-resets-counter', ['C12'], 'lib_guesser/status_report.py', "        status_item = pcfg.get_status(static_pt_item['pt'])", "        status_item = pcfg.get_status(static_pt_item['pt']); pcfg.omen_optimizer.tmto_lookup[2].clear()", benign=True, desc='status request clears part of the OMEN cache: no effect on the stream (C10)')
+# ---- C09
+mut('revert-F-C09', 'C09', 'lib_guesser/banner_info.py', "    print(file=sys.stderr)", "    print()")
+mut('revert-F-C09b-save', 'C09', CS, 'print ("Error writing sessiong restore file: " + self.save_filename, file=sys.stderr)', 'print ("Error writing sessiong restore file: " + self.save_filename)')
+mut('c09-limit-lt-zero', 'C09', G, "                        if limit == 0:\r\n                            return num_guesses", "                        if limit < 0:\r\n                            return num_guesses")
+mut('c09-limit-not-decremented-in-C', 'C09', G, "                        limit = limit - num_recursive_guesses", "                        limit = limit", nth=0)
+mut('c09-stray-print', 'C09', Q, "        self.max_probability = queue_item.pt_item['prob']", "        self.max_probability = queue_item.pt_item['prob']; print('') if len(self.p_queue) == 7 else None")
+mut('c09-omen-limit-off-by-one', 'C09', G, "\r\n                limit = limit - 1\r\n", "\r\n                limit = limit - (1 if num_guesses > 1 else 0)\r\n")
+# ---- C14
+mut('revert-F-C14a', 'C14', GIO, "                # Reset the file pointer\r\n                file.seek(0)", "                # Reset the file pointer\r\n                pass")
+mut('c14-skipcase-upper', 'C14', GIO, "'values': ['L'*length],", "'values': ['U'*length],")
+mut('c14-totalprob-not-first', 'C14', GIO, "prob = float(split_values[1]) / total_prob", "prob = float(split_values[1]) / (total_prob if base_structures else 1.0)")
+mut('c14-load-ignores-saved-flags', 'C14', 'pcfg_guesser.py', "        program_info['skip_brute'] = save_config.getboolean('rule_info','skip_brute')", "        pass")
+mut('c14-skipbrute-keeps-M', 'C14', GIO, "if not skip_brute or 'M' not in new_base['replacements']:", "if not skip_brute or 'M' not in new_base['replacements'] or len(base_structures) == 0:")
 json.dump(M, open(os.path.join(os.path.dirname(os.path.abspath(__file__)), 'mutants.json'), 'w'), indent=1)
 print(len(M), 'mutants')
